@@ -254,7 +254,9 @@ func c17Emit(e *emitter, origin string, err error, q string, pad int, base, edit
 			binder.SetPadding(pad)
 			_ = err.Error()
 		}
-		binder.BindQuery(q)
+		if c17History%4 != 1 && c17History%4 != 3 {
+			binder.BindQuery(q) // (histories 1 and 3 keep the binding they made)
+		}
 		binder.SetPadding(pad)
 		obs = err.Error()
 	}()
